@@ -665,4 +665,168 @@ theorem units_sum (t : Timeout) :
       + t.seconds * 1000000 + t.milliseconds * 1000 + t.microseconds := by
   unfold Timeout.toMicros; omega
 
+/-- while its timeout has not elapsed an instance's resources are not released -/
+theorem alive_not_destroyed (c : Cfg) (s : State) (t now : Nat) (ev : Ev) (hinv : Inv s t) (ht : t ≤ now)
+    (k τ l : Nat) (h : Holds s k τ l) (hl : l ≤ now) (hn : now < l + τ) :
+    (step c s now ev).1.destroyed.count k = s.destroyed.count k := by
+  cases ev with
+  | create τ' => simp only [step, create]; exact sweep_keeps_count s t now k τ l hinv h hn
+  | metrics => exact sweep_keeps_count s t now k τ l hinv h hn
+  | fullMetrics => exact sweep_keeps_count s t now k τ l hinv h hn
+  | access j kind =>
+    simp only [step, access]
+    have he := holds_ensure s k τ l now j h
+    have hinv1 := inv_ensure s t now j hinv ht
+    have hd1 := ensure_destroyed s now j
+    cases hen : ensure s now j with
+    | mk s1 b =>
+      rw [hen] at he hinv1 hd1
+      cases b with
+      | false => rfl
+      | true =>
+        simp only at hd1 ⊢
+        have hinv2 := inv_touch s1 now now j hinv1 (Nat.le_refl _)
+        have h2 := sweep_keeps_count (touch now j s1) now now k τ l hinv2 (holds_touch s1 k τ l now j he hl) hn
+        have h2' : (sweep now (touch now j s1)).destroyed.count k = s.destroyed.count k := by
+          rw [h2]; simp only [touch]; rw [hd1]
+        cases hf : findInst (sweep now (touch now j s1)) j with
+        | none => exact h2'
+        | some x => simp only; rw [(applyKind_core _ x kind).2.1]; exact h2'
+  | keepAlive j =>
+    simp only [step, keepAlive]
+    cases hr : c.keepAliveRestores with
+    | true =>
+      simp only [if_true]
+      have he := holds_ensure s k τ l now j h
+      have hinv1 := inv_ensure s t now j hinv ht
+      have hd1 := ensure_destroyed s now j
+      cases hen : ensure s now j with
+      | mk s1 b =>
+        rw [hen] at he hinv1 hd1
+        cases b with
+        | false => rfl
+        | true =>
+          simp only at hd1 ⊢
+          have hinv2 := inv_touch s1 now now j hinv1 (Nat.le_refl _)
+          rw [sweep_keeps_count (touch now j s1) now now k τ l hinv2 (holds_touch s1 k τ l now j he hl) hn]
+          simp only [touch]; rw [hd1]
+    | false =>
+      simp only [Bool.false_eq_true, if_false]
+      cases hasId s j with
+      | false => rfl
+      | true =>
+        simp only
+        have hinv2 := inv_touch s t now j hinv ht
+        rw [sweep_keeps_count (touch now j s) now now k τ l hinv2 (holds_touch s k τ l now j h hl) hn]
+        rfl
+
+/-! ### the property -/
+
+/-- Everything the statement says except "keep-alive restores an externalised instance": for every
+well-timed history from the empty server, in the state `s` it leads to, for every next request `ev` at
+every later clock value `now`. -/
+def C17_core (c : Cfg) : Prop :=
+  ∀ (evs : List (Nat × Ev)), wellTimed 0 evs = true →
+    ∀ (now : Nat), endTime 0 evs ≤ now → ∀ (ev : Ev),
+      let s := run c State.init evs
+      let s' := (step c s now ev).1
+      -- (1) less than the timeout elapsed since the last access: still there, same timeout, timer not moved back, not released
+      (∀ i ∈ s.insts, now < i.last + i.timeout →
+        (∃ j ∈ s'.insts, j.id = i.id ∧ j.timeout = i.timeout ∧ i.last ≤ j.last) ∧
+        s'.destroyed.count i.id = s.destroyed.count i.id) ∧
+      -- (2) never removed early
+      (∀ i ∈ s.insts, (∀ j ∈ s'.insts, j.id ≠ i.id) → i.last + i.timeout ≤ now) ∧
+      -- (3) every instance-scoped request and keep-alive succeeds on a present instance and restarts its timer
+      (∀ i ∈ s.insts, 0 < i.timeout → ∀ kind,
+        (∃ j ∈ (access s now i.id kind).1.insts, j.id = i.id ∧ j.last = now ∧ j.timeout = i.timeout) ∧
+        ((kind ≠ .step ∨ i.sess = true) → (access s now i.id kind).2 = true)) ∧
+      (∀ i ∈ s.insts, 0 < i.timeout →
+        (∃ j ∈ (keepAlive c s now i.id).1.insts, j.id = i.id ∧ j.last = now ∧ j.timeout = i.timeout) ∧
+        (keepAlive c s now i.id).2 = true) ∧
+      -- (4) full timeout elapsed: gone after the next trigger, released exactly once
+      (∀ i ∈ s.insts, i.last + i.timeout ≤ now → isTrigger c s i.id ev = true →
+        (∀ j ∈ s'.insts, j.id ≠ i.id) ∧ s'.destroyed.count i.id = s.destroyed.count i.id + 1) ∧
+      -- (5) id refused when gone and not externalised (and nothing changes)
+      (∀ k kind, hasId s k = false → lookupStored s.stored k = none →
+        access s now k kind = (s, false) ∧ keepAlive c s now k = (s, false)) ∧
+      -- (6) externalised: the next instance-scoped request restores it transparently
+      (∀ k τ kind, hasId s k = false → lookupStored s.stored k = some τ → 0 < τ →
+        (access s now k kind).2 = true ∧
+        ∃ j ∈ (access s now k kind).1.insts, j.id = k ∧ j.last = now ∧ j.timeout = τ)
+
+/-- keep-alive is a request to the instance as well: it restores an externalised instance -/
+def C17_keepalive_restores (c : Cfg) : Prop :=
+  ∀ (evs : List (Nat × Ev)), wellTimed 0 evs = true →
+    ∀ (now : Nat), endTime 0 evs ≤ now →
+      let s := run c State.init evs
+      ∀ k τ, hasId s k = false → lookupStored s.stored k = some τ → 0 < τ →
+        (keepAlive c s now k).2 = true ∧
+        ∃ j ∈ (keepAlive c s now k).1.insts, j.id = k ∧ j.last = now ∧ j.timeout = τ
+
+/-- The property at full strength. -/
+def C17_full (c : Cfg) : Prop := C17_core c ∧ C17_keepalive_restores c
+
+/-- holds whatever the configuration -/
+theorem C17_partial (c : Cfg) : C17_core c := by
+  intro evs hw now hnow ev
+  have hinv := inv_run c evs State.init 0 inv_init hw
+  refine ⟨?_, ?_, ?_, ?_, ?_, ?_, ?_⟩
+  · intro i hi hlt
+    have hl : i.last ≤ now := Nat.le_trans (hinv.lastLe i hi) hnow
+    have hh : Holds (run c State.init evs) i.id i.timeout i.last := ⟨i, hi, rfl, rfl, Nat.le_refl _⟩
+    exact ⟨alive_step c _ i.id i.timeout i.last now ev hh hl hlt,
+      alive_not_destroyed c _ _ now ev hinv hnow i.id i.timeout i.last hh hl hlt⟩
+  · intro i hi hg
+    exact C17_never_early c _ _ now ev hinv hnow i hi hg
+  · intro i hi hτ kind
+    exact C17_access_resets _ _ now hinv hnow i hi hτ kind
+  · intro i hi hτ
+    exact C17_keepalive_resets c _ _ now hinv hnow i hi hτ
+  · intro i hi hexp htr
+    exact C17_gone_after_trigger c _ _ now ev hinv hnow i hi hexp htr
+  · intro k kind habs hst
+    exact C17_refused c _ now k kind habs hst
+  · intro k τ kind habs hst hτ
+    exact C17_restore _ _ now k τ kind hinv hnow habs hst hτ
+
+theorem C17_full_of_good (c : Cfg) (hc : c.keepAliveRestores = true) : C17_full c := by
+  refine ⟨C17_partial c, ?_⟩
+  intro evs hw now hnow s k τ habs hst hτ
+  exact C17_restore_keepalive c hc _ _ now k τ (inv_run c evs State.init 0 inv_init hw) hnow habs hst hτ
+
+/-- Negation witness `keep-alive-no-restore`: create (1 s), begin-session, run-step (externalised),
+metrics at 5 s (timed out and swept), keep-alive at 6 s is refused and restores nothing. -/
+theorem C17_witness_keepalive (c : Cfg) (hc : c.keepAliveRestores = false) : ¬ C17_full c := by
+  intro h
+  have := h.2 [(0, .create 1000000), (1, .access 0 .begin), (2, .access 0 .step), (5000000, .metrics)]
+    (by decide) 6000000 (by decide) 0 1000000
+  cases c; simp only at hc; subst hc
+  revert this; decide
+
+/-! ### non-vacuity -/
+
+-- boundary: one microsecond before `last + timeout` the instance is there, at `last + timeout` it is gone and released once
+example : ((run ⟨false⟩ State.init [(0, .create 2000000), (1999999, .metrics)]).insts.map (·.id),
+           (run ⟨false⟩ State.init [(0, .create 2000000), (2000000, .metrics)]).insts.map (·.id),
+           (run ⟨false⟩ State.init [(0, .create 2000000), (2000000, .metrics), (2000001, .fullMetrics)]).destroyed)
+          = ([0], [], [0]) := by decide
+-- own access before any sweep revives an expired instance; restore of an externalised one
+example : (run ⟨false⟩ State.init [(0, .create 10), (50, .access 0 .begin), (55, .access 0 .step), (70, .create 5),
+           (80, .access 0 .results)]).insts.map (fun i => (i.id, i.last, i.timeout, i.sess)) = [(0, 80, 10, true)] := by decide
+example : isTrigger ⟨false⟩ (run ⟨false⟩ State.init [(0, .create 10), (0, .create 7)]) 0 (.access 1 .results) = true := by decide
+
+#print axioms C17_alive
+#print axioms C17_never_early
+#print axioms C17_access_resets
+#print axioms C17_keepalive_resets
+#print axioms C17_gone_after_trigger
+#print axioms C17_refused
+#print axioms C17_restore
+#print axioms C17_restore_keepalive
+#print axioms C17_partial
+#print axioms C17_full_of_good
+#print axioms C17_witness_keepalive
+#print axioms inv_run
+#print axioms units_sum
+
 end Bptk.C17
